@@ -952,17 +952,20 @@ impl<'p, W, R, T> CompilationScope<'p, W, R, T> {
                     if args.len() != spec.param_types.len() {
                         return Err(CompilationError::CallableBindingFailed);
                     }
-                    let mut bind = Bind::new();
+                    // the parameter types of a function-typed value are fixed (a generic parameter in them
+                    // belongs to the enclosing function and is rigid): every argument must be assignable
+                    // without binding anything
                     for (param, arg) in spec.param_types.iter().zip(args) {
                         let arg_type = self.type_of(arg)?;
-                        bind = bind
-                            .mix(&param.bind_in_assignment(&arg_type).ok_or(
-                                CompilationError::InvalidArgumentType {
+                        match param.bind_in_assignment(&arg_type) {
+                            Some(bind) if bind.is_empty() => {}
+                            _ => {
+                                return Err(CompilationError::InvalidArgumentType {
                                     expected: param.clone(),
                                     got: arg_type,
-                                },
-                            )?)
-                            .ok_or(CompilationError::CallableBindingFailed)?;
+                                })
+                            }
+                        }
                     }
                     return Ok(spec.return_type.clone());
                 }
